@@ -446,7 +446,7 @@ fn run_families(rep: &mut Report, fams: &[Family], optnames: &[&'static str], n1
 const OPTSETS: &[&str] = &["default", "gfm", "all"];
 
 pub fn run(cfg: &Cfg, rep: &mut Report) {
-    rep.rule = "S: for every fragment up to length 3 (quick) / 4 (thorough) over the alphabet *_`[]()<>!&\\|~^$:-#=+@./\"' LF a 1 (fragments of only a/1/space skipped) the families a.f^n, (f LF)^n and f^n.a.mirror(f)^n, plus ~150 curated shapes as nest/tree/repeat/lines/paragraph families; each measured at two sizes n (2^11, 2^12 quick; up to 2^16, 2^17 thorough; length-3/4 fragments screened at smaller n and re-measured at the large sizes when the slope exceeds 1.1) under default, GFM and all-extensions options; per measurement: 12 deterministic step counters (hook comrak::verif::steps) over parse + HTML + CommonMark + XML, output lengths, wall clock in an isolated worker. Oracle: log-log slope of total steps <= 1.25 (+0.10 tolerance), output <= 160 n + 4096. K (equality of step counts, exhaustive short + random texts): backtick-scan == Lean btStepsPos on one-paragraph texts over {a, `}; dollar-scan == Lean dlSteps (the code as it is since /repo commits 657287d and b4925f3, with its no-closer memos) on texts over {$, `, a, \\} with math_code and over {$, `, a, \\, space, 1} with math_dollars (with and without math_code); emphasis-opener-search == Lean emSteps true (the code as it is since /repo commit 9704a60) on texts over {*, _, a, space}; proved bounds (3n backticks; 3n code-dollar, 5n math-dollar; 19 n + chars for process_emphasis) re-checked on every text.".into();
+    rep.rule = "S: for every fragment up to length 3 (quick) / 4 (thorough) over the alphabet *_`[]()<>!&\\|~^$:-#=+@./\"' LF a 1 (fragments of only a/1/space skipped) the families a.f^n, (f LF)^n and f^n.a.mirror(f)^n, plus ~150 curated shapes as nest/tree/repeat/lines/paragraph families; each measured at two sizes n (2^11, 2^12 quick; up to 2^16, 2^17 thorough; length-3/4 fragments screened at smaller n and re-measured at the large sizes when the slope exceeds 1.1) under default, GFM and all-extensions options; per measurement: 12 deterministic step counters (hook comrak::verif::steps) over parse + HTML + CommonMark + XML, output lengths, wall clock in an isolated worker. Oracle: log-log slope of total steps <= 1.25 (+0.10 tolerance), output <= 160 n + 4096. K (equality of step counts, exhaustive short + random texts): backtick-scan == Lean btStepsPos on one-paragraph texts over {a, `}; dollar-scan == Lean dlSteps (the code as it is since /repo commits 657287d and b4925f3, with its no-closer memos) on texts over {$, `, a, \\} with math_code and over {$, `, a, \\, space, 1} with math_dollars (with and without math_code); emphasis-opener-search == Lean emSteps true (the code as it is since /repo commits 9704a60 and e31def4) on texts over {*, _, a, space} and, with strikethrough on, over {*, _, ~, a, space}; proved bounds (3n backticks; 3n code-dollar, 5n math-dollar; 44 n + chars for process_emphasis) re-checked on every text.".into();
     if std::env::var("CVH_C06_ICOUNT_ONLY").is_ok() {
         let mut ifams = wrap_families(cfg.tier_thorough);
         ifams.extend(curated().into_iter().filter(|f| f.shape == "nest"));
@@ -767,25 +767,25 @@ fn k_cd<'a>(bt: &mut Batch<'a>, rep: &mut Report, body: Vec<u8>, mc: bool, md: b
 }
 
 /// K for `process_emphasis`: the real `emphasis-opener-search` counter (index 5) of a one-paragraph text
-/// 'a' + w, w over letters, spaces, `*` and `_`, under default options == the Lean model `emSteps true`
-/// (the code as it is since /repo commit 9704a60: 17 slots, bottom raised after every failed `*`/`_` search)
-/// run on the delimiter list of the text.
-fn k_em<'a>(bt: &mut Batch<'a>, rep: &mut Report, body: Vec<u8>) {
+/// 'a' + w, w over letters, spaces, `*`, `_` and - with `tilde`, i.e. strikethrough on - `~`, == the Lean model
+/// `emSteps true` (the code as it is since /repo commits 9704a60 and e31def4: 42 slots, the bottom raised after
+/// every failed search; `~` with its insert_emph exit) run on the delimiter list of the text.
+fn k_em<'a>(bt: &mut Batch<'a>, rep: &mut Report, body: Vec<u8>, tilde: bool) {
     let mut text = b"a".to_vec();
     text.extend_from_slice(&body);
     let s = String::from_utf8(text.clone()).unwrap();
-    let real = match real_steps(&s, &Opts::default(), 5) {
+    let real = match real_steps(&s, &Opts::default().with("strikethrough", tilde), 5) {
         Some(x) => x,
         None => {
             rep.count("k-skipped-panic");
             return;
         }
     };
-    if body.iter().any(|c| *c == b'*' || *c == b'_') {
-        rep.nontrivial(&body);
+    if body.iter().any(|c| *c == b'*' || *c == b'_' || *c == b'~') {
+        rep.nontrivial(&(body.clone(), tilde));
     }
-    let inp = format!("em {}", hex(&text));
-    bt.push(format!("c06em {}", hex(&text)), move |resp, rep| {
+    let inp = format!("em {} {}", hex(&text), tilde as u8);
+    bt.push(format!("c06em {} {}", tilde as u8, hex(&text)), move |resp, rep| {
         rep.k_evals += 1;
         // answer: <steps of the code as it is (emSteps true)> <steps of the loop before /repo commit 9704a60 (emSteps false)>
         //         <delimiters> <delimiter characters> <no odd match>
@@ -806,18 +806,18 @@ fn k_em<'a>(bt: &mut Batch<'a>, rep: &mut Report, body: Vec<u8>) {
             rep.count("k-emphasis-code-differs-from-loop-before-repair");
         }
         // emphasis_linear: proved for the code as it is on every text whose delimiters are `*` and `_` runs (all texts here)
-        if real > 19 * n + chars {
-            rep.disagree("emphasis-steps-bound", inp.clone(), format!("real steps {} exceed the proved bound 19 n + chars = {}", real, 19 * n + chars));
+        if real > 44 * n + chars {
+            rep.disagree("emphasis-steps-bound", inp.clone(), format!("real steps {} exceed the proved bound 44 n + chars = {}", real, 44 * n + chars));
         }
         // emphasis_linear_old_noodd: the loop before the repair obeys the same bound on texts without an odd match
         let noodd = get(4) == Some(1);
-        if noodd && old > 19 * n + chars {
-            rep.disagree("emphasis-steps-bound", inp, format!("no odd match in the text, yet the old-loop model steps {} exceed the proved bound {}", old, 19 * n + chars));
+        if noodd && old > 44 * n + chars {
+            rep.disagree("emphasis-steps-bound", inp, format!("no odd match in the text, yet the old-loop model steps {} exceed the proved bound {}", old, 44 * n + chars));
         }
         if !noodd {
             rep.count("k-emphasis-texts-with-an-odd-match");
         }
-        if old > 19 * n + chars {
+        if old > 44 * n + chars {
             rep.count("k-emphasis-old-loop-above-linear-bound(rule-of-three)");
         }
     });
@@ -970,24 +970,40 @@ fn k_stage(cfg: &Cfg, rep: &mut Report) {
     for len in 0..=maxlen {
         for code in 0u32..(1u32 << (2 * len)) {
             let body: Vec<u8> = (0..len).map(|i| EM[(code >> (2 * i) & 3) as usize]).collect();
-            k_em(&mut bt, rep, body);
+            k_em(&mut bt, rep, body, false);
             n_exh += 1;
         }
     }
     rep.exhaustive_what.push(format!("process_emphasis: all {} texts 'a'+w, w over {{*,_,a,space}} of length <= {}", n_exh, maxlen));
+    // with strikethrough on: `~` is a delimiter (and a skip character of scan_delims)
+    let maxlen = if cfg.tier_thorough { 8 } else { 7 };
+    let mut n_exh = 0;
+    const EMT: &[u8] = b"*_~a ";
+    for len in 0..=maxlen {
+        for code in 0u32..5u32.pow(len as u32) {
+            let mut c = code;
+            let body: Vec<u8> = (0..len).map(|_| { let x = EMT[(c % 5) as usize]; c /= 5; x }).collect();
+            if body.contains(&b'~') {
+                k_em(&mut bt, rep, body, true);
+                n_exh += 1;
+            }
+        }
+    }
+    rep.exhaustive_what.push(format!("process_emphasis with strikethrough: all {} texts 'a'+w containing ~, w over {{*,_,~,a,space}} of length <= {}", n_exh, maxlen));
     let n = if cfg.tier_thorough { 60_000 } else { 8_000 };
     for i in 0..n {
         // many delimiter runs of lengths 1..7 in all flanking situations
         let k = r.range(1, 60);
         let mut body = vec![];
         let one = r.chance(1, 3);
+        let with_tilde = r.chance(1, 3);
         for _ in 0..k {
             match r.below(8) {
                 0 | 1 => body.push(b'a'),
                 2 => body.push(b' '),
                 3 => body.extend_from_slice(b"a "),
                 _ => {
-                    let c = if one || r.chance(2, 3) { b'*' } else { b'_' };
+                    let c = if with_tilde && r.chance(1, 2) { b'~' } else if one || r.chance(2, 3) { b'*' } else { b'_' };
                     let run = match r.below(6) {
                         0 => r.range(3, 7),
                         1 | 2 => 2,
@@ -1000,12 +1016,16 @@ fn k_stage(cfg: &Cfg, rep: &mut Report) {
         if i < 3 {
             rep.sample(format!("emphasis text {:?}", show(&body)));
         }
-        k_em(&mut bt, rep, body);
+        let tilde = body.contains(&b'~');
+        k_em(&mut bt, rep, body, tilde);
     }
     // the rule-of-three family of the known finding, small sizes (model == code on it; the growth is in S)
     for k in 1..=40usize {
-        k_em(&mut bt, rep, b" *a **b".repeat(k)[1..].to_vec());
-        k_em(&mut bt, rep, b"**b*a ".repeat(k));
+        k_em(&mut bt, rep, b" *a **b".repeat(k)[1..].to_vec(), false);
+        k_em(&mut bt, rep, b"**b*a ".repeat(k), false);
+        k_em(&mut bt, rep, b"__b_a ".repeat(k), false);
+        k_em(&mut bt, rep, b"~~b~a ".repeat(k), true);
+        k_em(&mut bt, rep, b"~b*a ".repeat(k), true);
     }
     bt.run(&m, rep);
 }
@@ -1053,7 +1073,8 @@ pub fn replay(kind: &str, input: &str) -> Result<Option<String>, String> {
             let m = Model::from_env();
             let mut bt = Batch::new();
             let t = crate::util::unhex(toks[1]).ok_or("bad hex")?;
-            k_em(&mut bt, &mut rep, t[1.min(t.len())..].to_vec());
+            let tilde = toks.get(2).map_or(false, |x| *x == "1");
+            k_em(&mut bt, &mut rep, t[1.min(t.len())..].to_vec(), tilde);
             bt.run(&m, &mut rep);
         }
         _ => return Err("bad replay input (want: pair <optset> <shape> <hex frag> <hex close> <n1> <n2> | bt <hex> | em <hex> | cd <hex>)".into()),
